@@ -37,8 +37,8 @@ RULE = ("generated UFO-3 fonts (1-3 layers, glyphs with outlines/components/anch
         "distinct = distinct (spec, structure, ops)")
 ASSUMPTIONS = [
     "UFO format 3 only; saves are in place (font.save()) or save-as to a path where nothing exists, same structure "
-    "(the font is bound to the new UFO afterwards, external edits then go there); one font object per UFO; single thread; no renames of glyphs or "
-    "layers in memory; glyphs carry no components (a component's observers load its base glyph, which entangles lazy "
+    "(the font is bound to the new UFO afterwards, external edits then go there); one font object per UFO; single thread; glyphs are "
+    "renamed in memory (glyph.name = ...), layers are not; glyphs carry no components (a component's observers load its base glyph, which entangles lazy "
     "loading with names whose files were deleted externally and not yet taken over)",
     "external edits write the bytes fontTools.ufoLib writes for a value (bytes <-> value one to one; checked at run time "
     "after every save and external write: stats key noncanonical must stay 0); lib.plist is never deleted externally and "
@@ -197,6 +197,8 @@ def model_lines(case):
             lines.append([A("pset"), A(op[1]), ids.part(op[1], op[2])])
         elif k in ("gget", "gnew", "gdel"):
             lines.append([A(k), op[1], op[2]])
+        elif k == "grename":
+            lines.append([A("grename"), op[1], op[2], op[3]])
         elif k == "gset":
             lines.append([A("gset"), op[1], op[2], ids.glyph(op[3])])
         elif k in ("lnew", "ldel", "ldefault"):
@@ -436,6 +438,14 @@ class Impl(object):
             if op[2] in layer._glyphs:
                 self.keep.append(layer._glyphs[op[2]])
             del layer[op[2]]
+            return ok
+        if k == "grename":
+            layer = font.layers[op[1]]
+            g = layer[op[2]]
+            self.keep.append(g)
+            if op[3] in layer._glyphs:
+                self.keep.append(layer._glyphs[op[3]])      # the glyph object that is replaced
+            g.name = op[3]
             return ok
         if k == "lnew":
             self.keep.append(font.newLayer(op[1]))
@@ -913,6 +923,15 @@ class Oracle(object):
                     e["pending"].pop(op[2], None)
                     e["glyphs"].pop(op[2], None)
                 continue
+            renamed_to = None
+            if k == "grename" and op[1] == ln and ok and op[2] != op[3]:
+                # the glyph object now lives under a name whose file (if any) it has neither read nor written; the old
+                # name is handled below like any glyph deleted in memory (the rename read the file first if need be)
+                renamed_to = op[3]
+                self.fresh_glyphs.add((ln, renamed_to))
+                if e is not None and not fresh_layer:
+                    e["pending"].pop(renamed_to, None)
+                    e["glyphs"].pop(renamed_to, None)
             if e is None or fresh_layer:
                 continue
             # deleted in memory: the file (if the font knows one) is scheduled for deletion as it was last read
@@ -931,6 +950,8 @@ class Oracle(object):
                         e["names"].discard(gn)      # the file is gone already: the font takes the deletion over
             # read lazily / reloaded
             for gn in (after["glyphs"][ln] - b_loaded) | (reloaded.get(ln, set()) & after["glyphs"][ln]):
+                if gn == renamed_to:
+                    continue
                 b = glyph_bytes(view, ln, gn)
                 if b is not None:
                     e["glyphs"][gn] = b
@@ -1593,6 +1614,8 @@ class Sim(object):
             self.loaded.setdefault(ln, set()).add(gn)
             self.gspecs.pop((ln, gn), None)
             return [["gnew", ln, gn]]
+        if r < 0.48:
+            return self.rename(ln, self.glyph(names), rng.choice(fg.GLYPH_NAMES))
         if r < 0.56:
             gn = self.glyph(names)
             if gn in names:
@@ -1649,6 +1672,18 @@ class Sim(object):
             self.mem_dat.discard(n)
             return [["dat", n, None]]
         return [["datget", rng.choice(sorted(self.mem_dat) or fg.DATA_NAMES)]]
+
+    def rename(self, ln, old, new):
+        """glyph.name = new: the old name leaves the layer (its file is scheduled for deletion), the glyph lives under
+        the new name, which replaces whatever the layer held there"""
+        names = self.mem_layers.setdefault(ln, set())
+        if old in names and old != new:
+            names.discard(old)
+            names.add(new)
+            self.loaded.setdefault(ln, set()).discard(old)
+            self.loaded[ln].add(new)
+            self.gspecs.pop((ln, new), None)
+        return [["grename", ln, old, new]]
 
     def save(self):
         if self.no_save or self.frozen:
@@ -2020,6 +2055,71 @@ def scenario(sim, k):
                 ops += [["test"], [key, n, rng.randint(1, 6)]]      # taken back in memory afterwards
                 (sim.mem_img if k == 12 else sim.mem_dat).add(n)
             return ops
+    if k == 18 and both:
+        # a glyph (read before, or never read) renamed to a name the UFO does not know: the new name exists in memory
+        # only (finding F8.1) until the save; the old file is scheduled for deletion and another program may touch or
+        # rewrite it meanwhile
+        gn = rng.choice(both)
+        free = [n for n in fg.GLYPH_NAMES if n not in sim.disk_layers[ln] and n not in sim.mem_layers[ln]]
+        if free:
+            new = rng.choice(free)
+            ops = ([["gget", ln, gn]] if rng.random() < 0.5 else []) + sim.rename(ln, gn, new)
+            r = rng.random()
+            if r < 0.25:
+                ops.append(["xglyph", ln, gn, "touch", None, sim.time()])
+            elif r < 0.45:
+                ops.append(["xglyph", ln, gn, "write", g(gn), sim.time()])
+            if rng.random() < 0.6:
+                ops += [["test"]] + sim.save() + [["test"]]
+                if rng.random() < 0.5:
+                    ops.append(["xglyph", ln, new, "write", g(new), sim.time()])
+                    sim.disk_layers[ln].add(new)
+            return ops
+    if k == 19 and len(both) >= 2:
+        # a glyph renamed onto a name whose file is on disk (deleted in memory before, or simply replaced): the glyph
+        # object has never read that file, nothing is to be reported for it
+        a, b = rng.sample(both, 2)
+        ops = [["gget", ln, x] for x in (a, b) if rng.random() < 0.5]
+        if rng.random() < 0.6:
+            ops.append(["gdel", ln, b])
+            sim.mem_layers[ln].discard(b)
+            sim.loaded[ln].discard(b)
+        ops += sim.rename(ln, a, b)
+        if rng.random() < 0.3:
+            ops.append(["xglyph", ln, rng.choice([a, b]), "touch", None, sim.time()])
+        if rng.random() < 0.5:
+            ops += [["test"]] + sim.save() + [["test"]]
+        return ops
+    if k == 20 and both:
+        # a glyph deleted in memory and created again under the same name (newGlyph directly, or del first)
+        gn = rng.choice(both)
+        ops = [["gget", ln, gn]] if rng.random() < 0.5 else []
+        if rng.random() < 0.7:
+            ops.append(["gdel", ln, gn])
+        ops.append(["gnew", ln, gn])
+        sim.loaded[ln].add(gn)
+        sim.gspecs.pop((ln, gn), None)
+        if rng.random() < 0.5:
+            ops.append(["gset", ln, gn, g(gn)])
+        r = rng.random()
+        if r < 0.3:
+            ops.append(["xglyph", ln, gn, "touch", None, sim.time()])
+        elif r < 0.45:
+            ops.append(["xglyph", ln, gn, "write", g(gn), sim.time()])
+        if rng.random() < 0.5:
+            ops += [["test"]] + sim.save() + [["test"]]
+        return ops
+    if k == 21 and both:
+        # rename there and back again, and a chain of renames, before anything is saved
+        gn = rng.choice(both)
+        free = [n for n in fg.GLYPH_NAMES if n not in sim.disk_layers[ln] and n not in sim.mem_layers[ln]]
+        if len(free) >= 2:
+            n1, n2 = rng.sample(free, 2)
+            ops = sim.rename(ln, gn, n1)
+            ops += sim.rename(ln, n1, gn) if rng.random() < 0.5 else sim.rename(ln, n1, n2)
+            if rng.random() < 0.5:
+                ops += [["test"]] + sim.save() + [["test"]]
+            return ops
     if k == 11 and both:
         # a glyph removed on disk while it is loaded (and edited) in memory
         gn = rng.choice(both)
@@ -2067,7 +2167,7 @@ def gen_case(rng, tier):
                 ops += sim.save()
             # B. scripted pattern and/or a batch of external edits
             if rng.random() < 0.6:
-                ops += scenario(sim, rng.randrange(18))
+                ops += scenario(sim, rng.randrange(22))
             for _ in range(rng.randint(0, 3)):
                 ops += sim.x_op()
             # C. in-memory ops while the external edits are unnoticed
